@@ -24,6 +24,16 @@ def _cast_i64(x):
     return v
 
 
+def is_iterable(obj):
+    # py::isinstance<py::iterable>: PyObject_GetIter succeeds (so the legacy __getitem__ protocol counts and
+    # zero-dimensional NumPy arrays do not)
+    try:
+        iter(obj)
+    except TypeError:
+        return False
+    return True
+
+
 def handle_as_numpy(content):
     if isinstance(content, (C.NumpyArray, C.EmptyArray)):
         return True
@@ -85,7 +95,7 @@ def toslice_part(out, obj):
     elif isinstance(obj, str):
         out.append("(fld %s)" % e_str(obj))
 
-    elif hasattr(obj, "__iter__"):
+    elif is_iterable(obj):
         strings = []
         all_strings = True
         for x in obj:
@@ -223,7 +233,7 @@ def getitem(self, obj):
             return self._getitem_range(start, stop)
     if isinstance(obj, str):
         return self._getitem_field(obj)
-    if not isinstance(obj, tuple) and hasattr(obj, "__iter__"):
+    if not isinstance(obj, tuple) and is_iterable(obj):
         strings = []
         all_strings = True
         for x in obj:
